@@ -112,14 +112,28 @@ def parseMembers : Nat → Str → Nat × List Member × Str
       let (n, ms, r') := parseMembers fuel r
       (n + 1, (match m with | some x => x :: ms | none => ms), r')
 
+/-- `leading_close_bracket()?`: a `]` right after `[`, `[!` or `[^` is an ordinary member (possibly the
+start of a range); `some (none, r)` is a reversed range that is dropped -/
+def parseLeadingClose : Str → Option (Option Member × Str)
+  | ']' :: '-' :: r1 =>
+    match parseSingle r1 with
+    | some (t, r2) => if ']' ≤ t.c then some (some (.range ⟨false, ']'⟩ t), r2) else some (none, r2)
+    | none => some (some (.single ⟨false, ']'⟩), '-' :: r1)
+  | ']' :: r => some (some (.single ⟨false, ']'⟩), r)
+  | _ => none
+
 def parseBracket : Str → Option (Pat × Str)
   | '[' :: r =>
     let (inv, r1) : Bool × Str := match r with
       | '!' :: t => (true, t)
       | '^' :: t => (true, t)
       | _ => (false, r)
-    match parseMembers r1.length r1 with
-    | (n + 1, ms, ']' :: r2) => some (.bracket inv ms, r2)
+    let (nFirst, msFirst, r2) : Nat × List Member × Str := match parseLeadingClose r1 with
+      | some (some m, r') => (1, [m], r')
+      | some (none, r') => (1, [], r')
+      | none => (0, [], r1)
+    match parseMembers r2.length r2 with
+    | (n, ms, ']' :: r3) => if nFirst + n = 0 then none else some (.bracket inv (msFirst ++ ms), r3)
     | _ => none
   | _ => none
 
@@ -217,19 +231,44 @@ def toRe : Pat → Re
   | .group .star b => .star (.grp (toRe b))
   | .group .at b => .grp (toRe b)
 
+/-- `char::is_ascii_punctuation` -/
+def isAsciiPunct (c : Char) : Bool :=
+  let v := c.toNat
+  (33 ≤ v && v ≤ 47) || (58 ≤ v && v ≤ 64) || (91 ≤ v && v ≤ 96) || (123 ≤ v && v ≤ 126)
+
+/-- text of a single member: a written backslash is kept only in front of punctuation the regex
+syntax accepts as an escaped literal; unescaped `[ ] & ~ ^` get a backslash (`]` can only be the
+leading member) -/
 def SM.render (m : SM) : Str :=
-  if m.esc then ['\\', m.c] else if m.c = '[' then ['\\', '['] else [m.c]
+  if m.esc then (if isAsciiPunct m.c && m.c != '<' && m.c != '>' then ['\\', m.c] else [m.c])
+  else if m.c = '[' || m.c = ']' || m.c = '&' || m.c = '~' || m.c = '^' then ['\\', m.c] else [m.c]
+
+/-- a range endpoint: `-` is always escaped there -/
+def SM.renderEnd (m : SM) : Str := if m.c = '-' then ['\\', '-'] else m.render
 
 def Member.render : Member → Str
   | .cls n => ['[', ':'] ++ n ++ [':', ']']
-  | .range f t => f.render ++ ['-'] ++ t.render
+  | .range f t => f.renderEnd ++ ['-'] ++ t.renderEnd
   | .single m => m.render
+
+def endsWithDash (t : Str) : Bool := t.getLast? = some '-'
+
+/-- `members.join("")` after the fix-up loop of `bracket_expression`: a lone `-` member right
+after a member text ending in `-` is written `\-` -/
+def renderMembersGo (prevDash : Bool) : List Member → Str
+  | [] => []
+  | m :: ms =>
+    let t := m.render
+    let t' := if prevDash && t = ['-'] then ['\\', '-'] else t
+    t' ++ renderMembersGo (endsWithDash t') ms
+
+def renderMembers (ms : List Member) : Str := renderMembersGo false ms
 
 def Re.render : Re → Str
   | .eps => []
   | .chr c => if needsEsc c then ['\\', c] else [c]
   | .any => ['.']
-  | .cls inv ms => ['['] ++ (if inv then ['^'] else []) ++ ms.flatMap Member.render ++ [']']
+  | .cls inv ms => ['['] ++ (if inv then ['^'] else []) ++ renderMembers ms ++ [']']
   | .fail => "(?!)".toList
   | .seq a b => a.render ++ b.render
   | .alt a b => a.render ++ ['|'] ++ b.render
@@ -354,7 +393,9 @@ def anchoredSearch (nc : Bool) (re : Re) : Bool → Str → Bool
 /-- `Pattern::exactly_matches` as brush computes it -/
 def exactlyMatches (ext nc : Bool) (p s : Str) : Bool := anchoredSearch nc (toRe (parsePat ext p)) true s
 
-/-! ### what the model's regex semantics does not cover (passed through to the regex crate verbatim) -/
+/-! ### class-text features that used to be read by the regex crate in its own way
+(kept as predicates: since the repairs of `single_char_bracket_member` / `char_range` /
+`bracket_expression` the emitted text no longer has them — see `Props/C08.lean`) -/
 
 def isAlnum (c : Char) : Bool := isDigit c || isLower c || isUpper c
 
@@ -365,8 +406,9 @@ def Member.odd : Member → Bool
   | .range f t => f.odd || t.odd
   | .single m => m.odd
 
-/-- `--`, `&&`, `~~` inside the class text are set operators of the regex crate -/
+/-- unescaped `--`, `&&`, `~~` inside the class text are set operators of the regex crate -/
 def hasSetOp : Str → Bool
+  | '\\' :: _ :: r => hasSetOp r
   | a :: b :: r => (a = b && (a = '-' || a = '&' || a = '~')) || hasSetOp (b :: r)
   | _ => false
 
@@ -378,7 +420,7 @@ def Pat.backslashAlnum : Pat → Bool
   | _ => false
 
 def Pat.setOp : Pat → Bool
-  | .bracket _ ms => hasSetOp (ms.flatMap Member.render)
+  | .bracket _ ms => hasSetOp (renderMembers ms)
   | .seq a b => a.setOp || b.setOp
   | .alt a b => a.setOp || b.setOp
   | .group _ b => b.setOp
@@ -398,7 +440,7 @@ def Pat.hasCls : Pat → Bool
 /-- a non-inverted class whose text starts with `^` (a reversed range was dropped in front of a `^`
 member): the regex crate reads it as a negation -/
 def Pat.caretFirst : Pat → Bool
-  | .bracket inv ms => !inv && (match ms.flatMap Member.render with | '^' :: _ => true | _ => false)
+  | .bracket inv ms => !inv && (match renderMembers ms with | '^' :: _ => true | _ => false)
   | .seq a b => a.caretFirst || b.caretFirst
   | .alt a b => a.caretFirst || b.caretFirst
   | .group _ b => b.caretFirst
